@@ -29,11 +29,11 @@ package sender
 //@   ensures err == nil ==> 0 <= result.ChecksumLength && result.ChecksumLength <= 16
 //@   ensures err == nil ==> 0 <= result.RemainderLength && result.RemainderLength <= result.BlockLength
 //@   ensures [bl-positive] err == nil && result.ChecksumCount > 0 ==> result.BlockLength >= 1
-//@   ensures [sumlen] err == nil ==> forall i :: 0 <= i && i < len(result.Sums) ==> 0 <= result.Sums[i].Len && result.Sums[i].Len <= result.BlockLength
+//@   ensures [sumlen] err == nil ==> forall i :: 0 <= i && i < len(result.Sums) ==> 1 <= result.Sums[i].Len && result.Sums[i].Len <= result.BlockLength
 //@   loop 0: invariant 0 <= i && i <= head.ChecksumCount && len(head.Sums) == head.ChecksumCount
 //@   loop 0: invariant head.ChecksumCount >= 0 && 0 <= head.BlockLength && head.BlockLength <= 536870912 && 0 <= head.ChecksumLength && head.ChecksumLength <= 16 && 0 <= head.RemainderLength && head.RemainderLength <= head.BlockLength
 //@   loop 0: invariant [bl-positive] head.ChecksumCount > 0 ==> head.BlockLength >= 1
-//@   loop 0: invariant [sumlen] forall k :: 0 <= k && k < i ==> 0 <= head.Sums[k].Len && head.Sums[k].Len <= head.BlockLength
+//@   loop 0: invariant [sumlen] forall k :: 0 <= k && k < i ==> 1 <= head.Sums[k].Len && head.Sums[k].Len <= head.BlockLength
 //@   loop 0: invariant 0 <= offset && offset <= i * 536870912
 
 // ---------------------------------------------------------------- file window
@@ -116,6 +116,11 @@ package sender
 //@   allows[C10] filedata if st.Opts.dry_run == 0
 //@ func (*sender.Transfer).SendFiles
 //@   allows[C10] filedata if st.Opts.dry_run == 0
+// SendFiles builds the search tables hashSearch relies on: every target
+// names a block of the signature, and the tag table points into the targets.
+//@ func (*sender.Transfer).SendFiles
+//@   loop[C02] 1: invariant [targets-built] len(targets) == len(head.Sums) && len(head.Sums) == head.ChecksumCount && (forall q :: 0 <= q && q <= rangeindex ==> targets[q].index == q)
+//@   loop[C02] 2: invariant [tag-table-built] len(targets) == len(head.Sums) && (forall t :: has(tagTable, t) ==> 0 <= tagTable[t] && tagTable[t] < len(targets)) && idx < len(targets)
 //@ func (*sender.Transfer).sendFile
 //@   allows[C10] filedata
 //@ func (*sender.Transfer).hashSearch
@@ -229,8 +234,13 @@ package sender
 //@   at[C02] (hash.Hash).Write: assert [hash-sees-file-range] len(arg0) == min(chunkSize, n - j) && isFileSeg(arg0, data(ms.f), st.lastMatch + j)
 //@   ensures[C02] [last-match-advances] err == nil ==> st.lastMatch == ite(i >= 0, offset + old(head.Sums[i].Len), offset)
 //@   ensures[C02] [window-invariant] err == nil ==> winOK(ms) && ms.f == old(ms.f) && ms.fileSize == old(ms.fileSize)
+// sendFile (no basis at the receiver): the file is sent as consecutive
+// literal chunks, each exactly the next unsent range of the file, up to its end.
 //@ func (*sender.Transfer).sendFile
-//@   at[C17] (io.Writer).Write: assert [chunk-within-frame-limit] len(arg0) <= 262144
+//@   loop[C02] 0: invariant [sent-prefix] 0 <= offset && select(ghost.fpos, data(f)) == offset && len(buf) == 262144
+//@   at[C02] (*rsyncwire.Conn).WriteInt32@2: assert [chunk-length-announced] arg1 == len(chunk) && 0 <= arg1
+//@   at[C02] (io.Writer).Write@1: assert [chunk-is-next-file-range] isFileSeg(arg0, data(f), offset)
+//@   at[C02] (*rsyncwire.Conn).WriteInt32@3: assert [whole-file-sent] arg1 == 0 && (staticFile(data(f)) ==> offset == fsize(data(f)))
 // hashSearch: the signature search. Safety of every index and of the window
 // requests, the tiling of the file by literal runs and matched blocks, and
 // the strong-checksum gate in front of every block reference.
@@ -253,5 +263,3 @@ package sender
 //@   loop[C02] 1: invariant [strong-sum-of-block] doneCsum2 ==> len(sum2) == 16 && bid(sum2) == strongSum(st.Seed, fileSeg(data(ms.f), offset, min(head.BlockLength, ms.fileSize - offset)))
 //@   at[C02] (*sender.Transfer).matched@1: assert [strong-checksum-gate] l == head.Sums[i].Len && base(local) == base(sum2) && off(local) == off(sum2) && len(local) == head.ChecksumLength && len(remote) == head.ChecksumLength && bid(local) == bid(remote) && bid(sum2) == strongSum(st.Seed, fileSeg(data(ms.f), offset, l))
 //@   at[C02] (*sender.Transfer).matched@3: assert [final-flush-at-eof] arg4 == ms.fileSize && arg5 == -1
-//@ func (*sender.Transfer).hashSearch
-//@   at[C17] (io.Writer).Write: assert [checksum-within-frame-limit] len(arg0) <= 262144
